@@ -60,6 +60,7 @@ type vC12Cfg struct {
 	Scale       int           // latency scale (ms)
 	Steps       int
 	Grace       time.Duration // derived: age after which the refresh pings a member
+	RealTime    bool          // not in a bubble (C12/closerace)
 }
 
 func vC12Grace(k, a int, period time.Duration) time.Duration {
@@ -172,11 +173,13 @@ type vC12Mon struct {
 	closeSeq int64
 	rejected map[peer.ID]bool
 
-	t0      time.Time
-	cbDone  int
-	members map[peer.ID]bool
-	hist    []string
-	keyCnt  int
+	t0     time.Time
+	cbDone int
+
+	issuedBefore, issuedAfter int // C12/closerace
+	members                   map[peer.ID]bool
+	hist                      []string
+	keyCnt                    int
 }
 
 const vC12Other = protocol.ID("/other/1.0.0")
@@ -217,7 +220,9 @@ func vC12New(t *testing.T, c *vh.Case, cfg vC12Cfg, conc bool) *vC12Mon {
 	m.n = n
 	m.proto = n.D.protocols[0]
 	n.S.ReadTimeout = cfg.ReadTimeout
-	synctest.Wait()
+	if !cfg.RealTime {
+		synctest.Wait()
+	}
 	// observation hooks (installed at rest: no peer is connected, nothing has been sent)
 	n.S.OnEvent = func(e vsim.Event) {
 		m.mu.Lock()
@@ -564,7 +569,7 @@ func (m *vC12Mon) analyse(cbs []vC12CB) map[peer.ID][]vC12Fact {
 	type iv struct{ a, b int64 }
 	ivs := map[peer.ID][]iv{}
 	replied := map[int64]bool{}
-	firstReq := map[string]int64{}  // key|peer -> seq of the first request
+	firstReq := map[string]int64{}     // key|peer -> seq of the first request
 	probeReqs := map[peer.ID][]int64{} // request seqs of probes per peer
 	for _, e := range log {
 		switch e.Kind {
@@ -607,6 +612,31 @@ func (m *vC12Mon) analyse(cbs []vC12CB) map[peer.ID][]vC12Fact {
 		}
 		return false
 	}
+	// standalone (not nested in a request) failed dials: dht.dialPeer of a lookup's queryPeer or the
+	// refresh probe's Connect. After one of them the lookup phase of that peer is over: a later
+	// request with the lookup's key is the follow-up's.
+	standalone := func(d vsim.DialEvent) bool {
+		for _, x := range ivs[d.Peer] {
+			if x.a < d.Seq && d.EndSeq < x.b {
+				return false // the enclosing request's reply carries the failure
+			}
+		}
+		return true
+	}
+	failedDials := map[peer.ID][]int64{}
+	for _, d := range dials {
+		if d.Err != "" && standalone(d) {
+			failedDials[d.Peer] = append(failedDials[d.Peer], d.Seq)
+		}
+	}
+	dialFailedBetween := func(p peer.ID, a, b int64) bool {
+		for _, s := range failedDials[p] {
+			if s > a && s < b {
+				return true
+			}
+		}
+		return false
+	}
 	for _, e := range log {
 		if e.Kind != vsim.EvReply || e.Type != pb.Message_FIND_NODE {
 			continue
@@ -621,7 +651,7 @@ func (m *vC12Mon) analyse(cbs []vC12CB) map[peer.ID][]vC12Fact {
 		case key == string(e.Peer):
 			f.Src = "probe"
 		case lk != nil:
-			phase = noFollowUp || (lk.Waiting[e.Peer] && firstReq[key+"|"+string(e.Peer)] == e.ReqSeq)
+			phase = noFollowUp || (lk.Waiting[e.Peer] && firstReq[key+"|"+string(e.Peer)] == e.ReqSeq && !dialFailedBetween(e.Peer, lk.StartSeq, e.ReqSeq))
 			f.Src = "lookupM"
 			if !phase {
 				f.Src = "followupM"
@@ -647,15 +677,8 @@ func (m *vC12Mon) analyse(cbs []vC12CB) map[peer.ID][]vC12Fact {
 		if d.Err == "" {
 			continue
 		}
-		nested := false
-		for _, x := range ivs[d.Peer] {
-			if x.a < d.Seq && d.EndSeq < x.b {
-				nested = true
-				break
-			}
-		}
-		if nested {
-			continue // the enclosing request's reply carries the failure
+		if !standalone(d) {
+			continue
 		}
 		f := vC12Fact{Seq: d.EndSeq, ReqSeq: d.Seq, VT: d.End, Peer: d.Peer, Err: d.Err}
 		f.Cancel = d.CtxErr != ""
@@ -1252,7 +1275,7 @@ func (m *vC12Mon) runHistory(t *testing.T) {
 
 func TestVerif_C12_histories(t *testing.T) {
 	vh.Run(t, vh.Spec{Prop: "C12", Unit: "histories", Quick: 400, Thorough: 16000, CostMs: 60,
-		Rule: "PRNG histories of 8-16 steps over 3-15 simulated peers (K in {24,40} so that no bucket fills; alpha in {1,3,10,K}; beta = K or, in a third of the cases, 1/3 with follow-up phase; optional generated routing-table filter; refresh period 20 s-5 min, query timeout 4/10 s, sender read timeout 3/10 s, lookup-check concurrency 256/1/2; fix-low-peers loop running): burst connect+identify, identify with/without the DHT protocol, protocol removed/added, health flips (ok, slow, empty answer, liar naming self/strangers, request error, dead, slow dial failure, silent, flaky), disconnect, GetClosestPeers (plain / cancelled at a PRNG instant or exactly at a reply instant / pre-cancelled), RefreshRoutingTable/ForceRefresh (1-3 at once), idle beyond the ping grace period, identify event for the local node, Close in four variants with refresh requests before/during/after; every step ends at a rest point in virtual time where PeerAdded/PeerRemoved callbacks, ListPeers and the refresh channels are judged against the simulated wire log; non-trivial = at least one admission and one eviction; distinct by (shape, step kinds, #adds, #removals)",
+		Rule:    "PRNG histories of 8-16 steps over 3-15 simulated peers (K in {24,40} so that no bucket fills; alpha in {1,3,10,K}; beta = K or, in a third of the cases, 1/3 with follow-up phase; optional generated routing-table filter; refresh period 20 s-5 min, query timeout 4/10 s, sender read timeout 3/10 s, lookup-check concurrency 256/1/2; fix-low-peers loop running): burst connect+identify, identify with/without the DHT protocol, protocol removed/added, health flips (ok, slow, empty answer, liar naming self/strangers, request error, dead, slow dial failure, silent, flaky), disconnect, GetClosestPeers (plain / cancelled at a PRNG instant or exactly at a reply instant / pre-cancelled), RefreshRoutingTable/ForceRefresh (1-3 at once), idle beyond the ping grace period, identify event for the local node, Close in four variants with refresh requests before/during/after; every step ends at a rest point in virtual time where PeerAdded/PeerRemoved callbacks, ListPeers and the refresh channels are judged against the simulated wire log; non-trivial = at least one admission and one eviction; distinct by (shape, step kinds, #adds, #removals)",
 		Clauses: []string{"never-self", "admit-after-reply", "admit-fresh-reply", "probe-admission-valid", "removal-justified", "failed-member-absent", "cancel-only-retained", "callbacks-match-table", "refresh-answered", "refresh-one-value", "refresh-answered-shutdown"}},
 		func(c *vh.Case) {
 			cfg := vC12Gen(c)
